@@ -150,15 +150,25 @@ def run(ctx) -> None:
     ctx.borrow("c13", "C13/one-emitter-per-watch", RONE)
 
     # ---------------------------------------------------------------- stop-and-join (must-effects)
+    timed_joins: list = []
+
+    def untimed(e) -> bool:
+        """join() with no timeout (or timeout=None): it returns only when the thread has ended.  join(t) returns after t seconds
+        whether or not the emitter is still inside queue_events()."""
+        a = [x for x in (e.extra.get("args") or []) if x != "None"] + [v for k, v in (e.extra.get("kwargs") or {}).items() if v != "None"]
+        if a:
+            timed_joins.append(e)
+        return not a
+
     def calls_in_order(p, pat_stop, pat_join):
-        """index of first stop matching, index of first join after it."""
+        """index of first stop matching, index of first untimed join after it."""
         i_stop = i_join = None
         for i, e in enumerate(p.evs):
             if e.kind == "call":
                 f = e.extra.get("func", "")
                 if i_stop is None and re.fullmatch(pat_stop, f):
                     i_stop = i
-                elif i_stop is not None and i_join is None and re.fullmatch(pat_join, f):
+                elif i_stop is not None and i_join is None and re.fullmatch(pat_join, f) and untimed(e):
                     i_join = i
         return i_stop, i_join
 
@@ -178,7 +188,7 @@ def run(ctx) -> None:
             if a is None:
                 ok, msg = False, "a normal path of unschedule() does not stop the emitter it looked up under the given watch"
             elif b is None:
-                ok, msg = False, "a normal path of unschedule() stops the emitter but returns without joining it: the emitter thread may still queue events"
+                ok, msg = False, "a normal path of unschedule() stops the emitter but returns without joining it" + (f" to the end (`{timed_joins[-1].text[:60]}` gives up after a timeout)" if timed_joins else "") + ": the emitter thread may still queue events"
         ctx.check(ok, RJ, f"{cls}.unschedule", msg, fi.loc)
 
         fa = P.find_method(cls, "unschedule_all")
@@ -207,7 +217,7 @@ def run(ctx) -> None:
                         continue
                     body = e.extra["paths"]
                     bs = all(any(x.kind == "call" and re.fullmatch(r"\$elem\(.*\)\.stop", x.extra.get("func", "")) for x in b.evs) for b in body if b.outcome in (NORMAL, ("continue",)))
-                    bj = all(any(x.kind == "call" and re.fullmatch(r"\$elem\(.*\)\.join", x.extra.get("func", "")) for x in b.evs) for b in body if b.outcome in (NORMAL, ("continue",)))
+                    bj = all(any(x.kind == "call" and re.fullmatch(r"\$elem\(.*\)\.join", x.extra.get("func", "")) and untimed(x) for x in b.evs) for b in body if b.outcome in (NORMAL, ("continue",)))
                     # a failure for one emitter must be absorbed inside its own iteration: absorbed further out, it has already ended the loop
                     esc = [b for b in body if b.outcome[0] == "raise" and any(x.kind == "call" and re.fullmatch(r"\$elem\(.*\)\.(join|stop)", x.extra.get("func", "")) for x in b.evs)]
                     if esc:
@@ -223,7 +233,7 @@ def run(ctx) -> None:
                 elif not stopped:
                     ok, msg = False, f"a normal path of {what} does not call stop() on every emitter"
                 elif not joined:
-                    ok, msg = False, f"a normal path of {what} does not join every emitter after stopping it"
+                    ok, msg = False, f"a normal path of {what} does not join every emitter after stopping it" + (f" (`{timed_joins[-1].text[:60]}` gives up after a timeout: the emitter may still be inside queue_events() and queue events later)" if timed_joins else "")
                 elif not order_ok:
                     ok, msg = False, f"{what} joins emitters before stopping them, or walks the emitter set after emptying it"
             return ok, msg
@@ -246,6 +256,8 @@ def run(ctx) -> None:
 API = "observers/api.py"
 VARIANTS = [
     dict(name="B drop emitter.join() in _remove_emitter", expect="fire", rule="C05/stop-and-join", edits=[(API, "        emitter.stop()\n        with contextlib.suppress(RuntimeError):\n            emitter.join()\n\n    def _clear_emitters", "        emitter.stop()\n\n    def _clear_emitters")]),
+    dict(name="B bounded join of a removed emitter", expect="fire", rule="C05/stop-and-join", edits=[(API, "        emitter.stop()\n        with contextlib.suppress(RuntimeError):\n            emitter.join()\n\n    def _clear_emitters", "        emitter.stop()\n        with contextlib.suppress(RuntimeError):\n            emitter.join(emitter.timeout)\n\n    def _clear_emitters")]),
+    dict(name="E join(timeout=None)", expect="silent", edits=[(API, "        emitter.stop()\n        with contextlib.suppress(RuntimeError):\n            emitter.join()\n\n    def _clear_emitters", "        emitter.stop()\n        with contextlib.suppress(RuntimeError):\n            emitter.join(timeout=None)\n\n    def _clear_emitters")]),
     dict(name="B drop emitter.stop() in _remove_emitter", expect="fire", rule="C05/stop-and-join", edits=[(API, "        self._emitters.remove(emitter)\n        emitter.stop()\n", "        self._emitters.remove(emitter)\n")]),
     dict(name="B drop join loop in _clear_emitters", expect="fire", rule="C05/stop-and-join", edits=[(API, "        for emitter in self._emitters:\n            with contextlib.suppress(RuntimeError):\n                emitter.join()\n", "")]),
     dict(name="B emitters cleared before the join loop", expect="fire", rule="C05/stop-and-join", edits=[(API, "        for emitter in self._emitters:\n            with contextlib.suppress(RuntimeError):\n                emitter.join()\n        self._emitters.clear()", "        self._emitters.clear()\n        for emitter in self._emitters:\n            with contextlib.suppress(RuntimeError):\n                emitter.join()")]),
